@@ -24,7 +24,7 @@ OVERRIDES.update({
 
 
 def caps(tier):
-    return dict(rest=42, store=3) if tier == "quick" else dict(rest=52, store=3)
+    return dict(rest=42, store=3, wide=50) if tier == "quick" else dict(rest=52, store=3, wide=62)
 
 
 def _j(v):
@@ -125,7 +125,58 @@ def make_queries(tier):
                                         bstr.eq(bstr.substr(a, co + cl, a.n - (co + cl)), bstr.substr(b, co + cl, a.n - (co + cl))))))
         E.cover("replacement in an asset with an existing manifest", z3.And(good, ncabx == bv(1), ugt(s1.e.n, bv(0))))
 
-    return [q_png_locations_after_write, q_png_same_size_replacement]
+    def q_png_locations_existing_manifest(E):
+        """object locations of ANY valid asset that already carries a manifest chunk (anywhere after IHDR, e.g. written by another tool):
+        the manifest region is exactly that chunk, the rest tiles the file"""
+        data, rest = K.png_input(E, C["wide"])
+        if E.mode != "symbolic":
+            L = E.native("png_locations", [_j(data)])
+            b = _j(data).encode("latin-1")
+            pos, cs, ce = 8, None, None
+            while pos + 12 <= len(b):
+                ln = int.from_bytes(b[pos:pos + 4], "big")
+                if b[pos + 4:pos + 8] == b"caBX":
+                    cs, ce = pos, pos + 12 + ln
+                    break
+                if b[pos + 4:pos + 8] == b"IEND":
+                    break
+                pos += 12 + ln
+            cai = [l for l in L["locs"] if l["cai"]]
+            E.prove("the reported manifest region is exactly the existing manifest chunk", z3.BoolVal(L["ok"] and len(cai) == 1 and cai[0]["offset"] == cs and cai[0]["length"] == ce - cs))
+            cover = sorted([(l["offset"], l["length"]) for l in L["locs"]])
+            p0, tiles = 0, True
+            for a, c in cover:
+                tiles = tiles and a == p0
+                p0 = a + c
+            E.prove("the reported regions do not overlap and together cover the file", z3.BoolVal(L["ok"] and tiles and p0 == len(b)))
+            return
+        I = E.I
+        WCH = C["wide"] // 12
+        I.loop_bound = WCH + 3
+        valid, st, ncabx = K.valid_png(data.e, WCH)
+        E.assume(valid)
+        E.assume(ncabx == bv(1))
+        cs, ce = bv(0), bv(0)
+        for s_ in st:
+            hit = z3.And(s_["here"], s_["is_cabx"])
+            cs = z3.If(hit, s_["start"], cs)
+            ce = z3.If(hit, s_["end"], ce)
+        r = I.call("<PngIO as CAIWriter>::get_object_locations_from_stream", [VStruct("PngIO", {}), ms.stream(data, 0)])
+        good = is_ok(r)
+        locs = r.payload["Ok"][0]
+        cai, before, after = locs.items[0], locs.items[1], locs.items[2]
+        co, cl = cai.fields["offset"].e, cai.fields["length"].e
+        flen = data.e.n
+        E.prove("the reported manifest region is exactly the existing manifest chunk",
+                z3.And(good, locs.n == bv(3), cai.fields["htype"].tag == TAG("HashBlockObjectType", "Cai"), co == cs, co + cl == ce))
+        bo, bl = before.fields["offset"].e, before.fields["length"].e
+        ao, al = after.fields["offset"].e, after.fields["length"].e
+        E.prove("the reported regions do not overlap and together cover the file",
+                z3.Implies(good, z3.And(bo == bv(0), bo + bl == co, ao == co + cl, ao + al == flen)))
+        E.cover("manifest chunk preceded by another chunk", z3.And(good, st[2]["here"], st[2]["is_cabx"]))
+        E.cover("manifest chunk directly after IHDR", z3.And(good, st[1]["here"], st[1]["is_cabx"]))
+
+    return [q_png_locations_after_write, q_png_same_size_replacement, q_png_locations_existing_manifest]
 
 
 def _comp_locs(I, args):
